@@ -601,3 +601,59 @@ def check_C15(ctx):
              'the documented globals. thorough: the workload also runs unscheduled on a ThreadSanitizer build. distinct = distinct (schedule, thread, call); non-trivial = operand of two limbs or more',
         explanation='schedules at yield-point granularity only; races inside a segment are visible only to the TSan pass',
         extra_cov=dict(schedules=len(scheds), tsan_reports=tsan_reports))
+
+
+# ------------------------------------------------------------------------------------------------ C20
+def check_C20(ctx):
+    import re, glob, concurrent.futures as cf
+    from verif import sh
+    q = ctx.tier == 'quick'
+    outs = {}
+    for kind in ('z', 'q'):
+        r = assume_model(ctx, 'CxxExpr', {'KIND': f'"{kind}"'}, name=f'CxxExpr-{kind}', timeout=3000)
+        ctx.model_must_hold(r)
+        p = os.path.join(ctx.scratch, f'trees-{kind}.out'); open(p, 'w').write(r['out']); outs[kind] = p
+        n = len(re.findall(r'<<"TREE"', r['out']))
+        for mm in ctx.models:
+            if mm['name'] == f'CxxExpr-{kind}': mm['states'] = max(mm['states'], n); mm['transitions'] = mm['states']
+    bx = ctx.build('cxx', harness=False)
+    gen = os.path.join(ctx.scratch, 'cxx')
+    rc, out = sh(['python3', os.path.join(VERIF, 'lib/cxxgen.py'), outs['z'], outs['q'], gen, str(ctx.seed), '3000' if q else '0', '1200' if q else '0'], timeout=600)
+    if rc != 0: raise Machinery('cxxgen failed: ' + out[-2000:])
+    ctx.notes.append('generator: ' + out.strip())
+    srcs = sorted(glob.glob(os.path.join(gen, '*.cc'))) + [os.path.join(VERIF, 'harness/cxx_conv.cc')]
+    def comp(s):
+        o = os.path.join(gen, os.path.basename(s) + '.o')
+        return sh(['g++', '-O0', '-w', f'-I{bx}', '-c', s, '-o', o], timeout=900) + (o,)
+    objs = []
+    with cf.ThreadPoolExecutor(max_workers=16) as ex:
+        for rc, out, o in ex.map(comp, srcs):
+            # a tree the specification calls well-typed must compile against mpirxx.h
+            if rc != 0:
+                rp = ctx.save_replay('compile-error.txt', out[-20000:]); ctx.violation('C20', 'a well-typed expression tree does not compile against mpirxx.h', rp); return ctx.finish('exploration', 'compile failure', explanation='compile failure')
+            objs.append(o)
+    exe = os.path.join(gen, 'cxxrun')
+    rc, out = sh(['g++', '-no-pie', '-o', exe] + objs + [os.path.join(bx, '.libs/libmpirxx.a'), os.path.join(bx, '.libs/libmpir.a')], timeout=600)
+    if rc != 0: raise Machinery('C++ link failed: ' + out[-2000:])
+    tracep = os.path.join(ctx.scratch, 'cxx.ndjson')
+    rc, out = sh([exe, tracep, '4'], timeout=900)
+    if rc != 0:
+        with open(tracep, 'a') as f: f.write('\n{"e":"crash","sig":%d,"in":"C++ expression run"}\n' % (rc if rc > 0 else -rc))
+    # split at execution boundaries into 16 files for parallel validation
+    lines = open(tracep).read().splitlines(); chunks = [[] for _ in range(16)]; k = -1
+    for l in lines:
+        if l.startswith('{"e":"reset"'): k += 1
+        chunks[k % 16 if k >= 0 else 0].append(l)
+    paths = []
+    for i, c in enumerate(chunks):
+        if c: p = os.path.join(ctx.scratch, f'cxx.{i}.ndjson'); open(p, 'w').write('\n'.join(c) + '\n'); paths.append(p)
+    os.remove(tracep)
+    ctx.validate(paths)
+    return ctx.finish('exploration',
+        rule='programs = well-typed mpz_class / mpq_class expression trees of depth <= 2 enumerated by TLC from the typed grammar (CxxExpr.tla: every op1(op2(x,y),z) and mirror image over 11 leaves '
+             'incl. LONG_MIN/LONG_MAX/ULONG_MAX/doubles on either side, op1(op2,op3) over a smaller alphabet, unary wrappers, comparisons/cmp/sgn at the root; quick: a seeded 3000 + 1200), '
+             'each compiled against the tree\'s mpirxx.h and evaluated for 4 operand-value classes with assignment to a fresh temporary, to a variable occurring in the tree (every 4th) and as a '
+             'compound assignment (every 5th); the printed value must equal CxxSem!EvalZ / EvalQ (= every sub-expression into its own temporary with the C function). Conversions: set_str and '
+             'string constructors (exceptions), get_str in bases 2..62, stream insertion/extraction round trips, fits/get. mpf_class arithmetic is not enumerated (the precision of temporaries '
+             'is an implementation choice). distinct = distinct (tree, target, value class); non-trivial = a tree with at least one operator',
+        explanation='expression trees generated from the grammar, validated against the C-level semantics')
